@@ -117,6 +117,14 @@ def kwargs_menu(name, shape):
                     out.append(kw)
                     if s is not None and not norm:
                         out.append(dict(kw, _positional=True))       # fn(x, s[, axes]) with positional arguments
+        # axes=None spelled out (scipy then takes ALL axes, or the last len(s)), also positionally; -1 in s = "keep this length"
+        for norm in (None,):
+            out.append({"axes": None})
+            out.append({"s": tuple([3, 4, 2][:max(1, nd - 1)]), "axes": None})
+            out.append({"s": tuple([3, 4, 2][:max(1, nd - 1)]), "axes": None, "_positional": True})
+            if nd >= 2 and name in ("fftn", "ifftn", "fft2", "ifft2"):
+                out.append({"s": (-1, 4), "axes": (0, 1)})
+                out.append({"s": (3, -1), "axes": (nd - 1, 0)})
     return out
 
 
@@ -125,7 +133,7 @@ def transformed_axes(name, kw, nd):
         return {kw.get("axis", -1) % nd}
     axes = kw.get("axes")
     if axes is None:
-        if name.endswith("2"):
+        if name.endswith("2") and "axes" not in kw:
             return {nd - 2, nd - 1}
         s = kw.get("s")
         return set(range(nd)) if s is None else set(range(nd - len(s), nd))
@@ -236,7 +244,14 @@ def fft_case(case, res):
                     res.violation(f"{site}|values", f"max |pb - scipy.fft.{name}| = {e:.3g} (budget {tol:.3g}) [{sub}]", case, sub)
                     continue
                 try:
-                    ref = dft.ref_transform(name, x.astype(complex) if x.dtype.kind in "biu" else x, **kw)
+                    kw_ref = {k: v for k, v in kw.items() if k not in ("_positional", "workers", "overwrite_x")}
+                    if "axes" in kw_ref and kw_ref["axes"] is None:
+                        # spelled-out None means ALL axes (or the last len(s)) for every n-d name, also the "2" ones
+                        n_ax = nd if kw_ref.get("s") is None else len(kw_ref["s"])
+                        kw_ref["axes"] = tuple(range(nd - n_ax, nd))
+                    if kw_ref.get("s") is not None and kw_ref.get("axes") is not None:
+                        kw_ref["s"] = tuple(x.shape[a] if n_ == -1 else n_ for n_, a in zip(kw_ref["s"], kw_ref["axes"]))
+                    ref = dft.ref_transform(name, x.astype(complex) if x.dtype.kind in "biu" else x, **kw_ref)
                 except Exception:
                     res.skipped["definition-based reference not applicable"] += 1
                     continue
